@@ -10,6 +10,7 @@ from ase.data import covalent_radii
 from ase.geometry import complete_cell, get_distances
 
 from matsim import gens
+from matsim.mic import exact_mic_distances
 from matsim.prng import np_stream, stream
 from matsim.sio import atoms_to_spec
 
@@ -31,7 +32,7 @@ def _bond_graph(a, bond=0.65):
     else:
         cell = complete_cell(c) if zero.any() else c
         pbc = a.pbc
-    _, D = get_distances(a.positions, cell=cell, pbc=pbc)
+    D = exact_mic_distances(a.positions, cell, pbc)
     r = covalent_radii[a.numbers]
     M = D - r[:, None] - r[None, :]
     np.fill_diagonal(M, np.inf)
